@@ -414,3 +414,48 @@ Qed.
 (* Deb822::new and FromIterator<Paragraph> *)
 Lemma new_is_live : deb822_of_paragraphs [] = ltree_of [] /\ lwf [] = true.
 Proof. split; reflexivity. Qed.
+
+(* ---- a document collected from paragraphs (impl FromIterator<Paragraph> for Deb822) ---- *)
+Fixpoint layout_paras (ps : list (list item)) : ldocl :=
+  match ps with
+  | [] => []
+  | [its] => [LPara its]
+  | its :: r => LPara (terminate_last its) :: LBlank :: layout_paras r
+  end.
+
+Lemma join_paras_layout ps : forall i,
+  join_paras (S i) (map (fun its => lblock_tree (LPara its)) ps) =
+  match ps with [] => [] | _ => map lblock_tree (LBlank :: layout_paras ps) end.
+Proof.
+  induction ps as [|its r IH]; intros i; [reflexivity|].
+  cbn [map join_paras]. destruct r as [|its2 r2].
+  - reflexivity.
+  - cbn [map] in *. rewrite (ensure_nl_lblock (LPara its)). rewrite (IH (S i)). reflexivity.
+Qed.
+
+Theorem from_paragraphs_live ps : Forall (fun its => wf_items its false = true) ps ->
+  deb822_of_paragraphs (map (fun its => lblock_tree (LPara its)) ps) = ltree_of (layout_paras ps) /\
+  lwf (layout_paras ps) = true /\
+  lcontent (layout_paras ps) = map (flat_map item_pairs) ps.
+Proof.
+  intros H. split; [|split].
+  - unfold deb822_of_paragraphs, ltree_of. f_equal. destruct ps as [|its r]; [reflexivity|].
+    cbn [map join_paras]. destruct r as [|its2 r2]; [reflexivity|].
+    cbn [app]. rewrite (ensure_nl_lblock (LPara its)). rewrite join_paras_layout. reflexivity.
+  - induction H as [|its r Hits Hr IH]; [reflexivity|]. destruct r as [|its2 r2].
+    + cbn [layout_paras lwf]. rewrite Hits. reflexivity.
+    + change (layout_paras (its :: its2 :: r2)) with (LPara (terminate_last its) :: LBlank :: layout_paras (its2 :: r2)).
+      cbn [lwf]. rewrite (wf_terminate_last _ _ Hits). cbn [andb]. exact IH.
+  - induction ps as [|its r IH]; [reflexivity|]. inversion H as [|x y Hx Hy]; subst. destruct r as [|its2 r2].
+    + reflexivity.
+    + change (layout_paras (its :: its2 :: r2)) with (LPara (terminate_last its) :: LBlank :: layout_paras (its2 :: r2)).
+      cbn [lcontent flat_map app map]. rewrite pairs_terminate_last. f_equal. apply IH. exact Hy.
+Qed.
+
+(* the code before fix 316b0fc fused an unterminated paragraph with the next one *)
+Lemma from_paragraphs_before_fix_refuted :
+  let a := lblock_tree (LPara [IField (mk_field [65%N] [32%N] [49%N] [] false)]) in      (* "A: 1" *)
+  let b := lblock_tree (LPara [IField (mk_field [66%N] [32%N] [50%N] [] false)]) in      (* "B: 2" *)
+  let t := Node ROOT (join_paras_before_fix 0 [a; b]) in
+  length (doc_items t) = 2 /\ exists t', from_str (text t) = Ok t' /\ length (doc_items t') = 1.
+Proof. cbv zeta. split; [reflexivity|]. eexists. split; vm_compute; reflexivity. Qed.
